@@ -244,7 +244,7 @@ def obligations(tier):
                 "{'nones': (False,), 'starts': [s0], 'stops': [e0], 'idx': [i0], 'x': x}", timeout=60, twin=True)
     )
     nm = (len(RUNIDS), len(TARGETS), len(TASKS), len(ALGS), len(SVS), len(PAGES))
-    masks = [0b111111, 0b010110, 0b101001, 0b000001] if tier == 'quick' else list(range(1, 64))
+    masks = [0b111111, 0b010110, 0b101001, 0b000001] if tier == 'quick' else [0b111111, 0b010110, 0b101001, 0b000001, 0b110000, 0b001111, 0b100100, 0b011011]
     for mask in masks:
         for r0 in range(len(RUNIDS)):
             out.append(ob.make(f'find-m{mask:06b}-r{r0}', 'find', 'vp.harness.c17:find_body', 'ti: int, ki: int, ai: int, si: int, pi: int',
